@@ -144,6 +144,8 @@ pub struct Card {
     pub pay_ids: HashMap<Vec<u8>, i64>,
     pub next_pay: i64,
     pub last_cmd: i64,
+    pub pre_armed: bool,
+    pub pre_erase: u32,
     pub clock_since_cmd: u64,
     pub pending_data: Vec<u8>,
     pub busy_pending: u64,
@@ -169,7 +171,7 @@ impl Card {
             in_block: false, cur_addr: 0, rd_next: 0, rd_active: false, mem: HashMap::new(), nblocks, csd,
             resp_delay: 1, tok_delay: 2, busy_len: 3, rng: 1, random_timing: false, misb: Vec::new(), dead_from: None,
             dead_val: 0xFF, total_bytes: 0, call_bytes: 0, budget: u64::MAX, over_budget: false, spi_error_at: None,
-            log: Vec::new(), idle_run: 0, idle_busy: 0, pay_ids: HashMap::new(), next_pay: 1, last_cmd: -1, clock_since_cmd: 0,
+            log: Vec::new(), idle_run: 0, idle_busy: 0, pay_ids: HashMap::new(), next_pay: 1, last_cmd: -1, pre_armed: false, pre_erase: 0, clock_since_cmd: 0,
             pending_data: Vec::new(), busy_pending: 0, block_token: 0, block_busy: false,
         }
     }
@@ -338,6 +340,8 @@ impl Card {
             "acmd": was_app, "busy": was_busy, "pending": pending, "mode": format!("{:?}", mode_before),
             "gap": self.clock_since_cmd, "prev": self.last_cmd});
         self.app = false;
+        let pre_armed = self.pre_armed;
+        self.pre_armed = false;
         self.last_cmd = if was_app { 100 + idx as i64 } else { idx as i64 };
         self.clock_since_cmd = 0;
         // a command arriving while data is being sent (multi read): only CMD12 is meaningful
@@ -484,10 +488,22 @@ impl Card {
                         r1 = 0;
                         self.cur_addr = b;
                         self.mode = if idx == 24 { Mode::WrSingle } else { Mode::WrMulti };
+                        if idx == 25 && pre_armed {
+                            // the announced number of blocks is erased before the first one arrives
+                            let k = self.pre_erase.min(64);
+                            for x in b..b.saturating_add(k).min(self.nblocks) {
+                                self.mem.insert(x, Box::new([0xFFu8; 512]));
+                            }
+                            ev["erased"] = json!(k);
+                        }
                     }
                     _ => r1 = 0x40,
                 },
-                (true, 23) if self.ready => r1 = 0,
+                (true, 23) if self.ready => {
+                    r1 = 0;
+                    self.pre_erase = arg & 0x007F_FFFF;
+                    self.pre_armed = true;
+                }
                 _ => r1 = 0x04 | idlebit,
             }
         }
